@@ -624,6 +624,12 @@ def run(ctx):
         # (without a target namespace the reference classes are named after the elements alone)
         bare = amb.replace(' targetNamespace="urn:h" xmlns:t="urn:h" elementFormDefault="qualified"', "")
         generation_case(ctx, "xsd", {"h.xsd": bare}, ["h.xsd"], oname, opts, None, traces, f"ambiguous-choices-bare-{k}", must_generate=True)
+    # ONE source document whose elements live in several namespaces and reuse local names (also up to case): with the
+    # filenames / single-package styles all of its classes share a module and need different names
+    two_ns = ('<doc xmlns="urn:d" xmlns:a="urn:a" xmlns:b="urn:b"><a:item code="x"><a:label>f</a:label></a:item><b:item><b:amount>1</b:amount><b:amount>2</b:amount></b:item>'
+              '<b:Item><b:label>g</b:label><a:doc><a:label>h</a:label></a:doc></b:Item></doc>')
+    for k, (oname, opts, mut) in enumerate(osets):
+        generation_case(ctx, "xml-sample", {"h.xml": two_ns}, ["h.xml"], oname, opts, mut, traces, f"two-ns-same-name-{k}", must_generate=True)
     # the finding F47 is exercised by its reproducer in every run (and its counterpart, the same key naming a VALUE)
     generation_case(ctx, "json-sample", {"h.json": '{"a\\nb": {"k": 1}}'}, ["h.json"], "namespaces-camel", osets[5][1], osets[5][2], traces, "f47")
     generation_case(ctx, "json-sample", {"h.json": '{"a\\nb": 1, "c\\"d": [2]}'}, ["h.json"], "namespaces-camel", osets[5][1], osets[5][2], traces, "f47-ok")
